@@ -18,6 +18,18 @@ class _App:
 
     async def __call__(self, scope, receive, send, sync_spawn=None, call_soon=None):
         self.scopes.append(scope)
+        if scope["type"] == "websocket" and scope["raw_path"].startswith(b"/reject"):
+            # refuses the handshake and stays around (it has not returned yet when the client's next frame arrives)
+            await receive()
+            if scope["raw_path"] == b"/reject-close":
+                await send({"type": "websocket.close", "code": 1008})
+            else:
+                await send({"type": "websocket.http.response.start", "status": 401, "headers": [(b"content-length", b"2")]})
+                await send({"type": "websocket.http.response.body", "body": b"no", "more_body": False})
+            while True:
+                m = await receive()
+                if m["type"] == "websocket.disconnect":
+                    return
         if scope["type"] == "websocket":
             await receive()
             await send({"type": "websocket.accept"})
@@ -52,6 +64,8 @@ KINDS = [
     "WINDOW_UPDATE on a stream answered before its request body ended", "RST_STREAM(NO_ERROR) on a stream answered before its request body ended",
     "WINDOW_UPDATE on the connection and on an idle (never opened) stream id is not sent; PRIORITY for a finished stream",
     "a whole connection window (65535 bytes) of DATA after the response completed, request body never ended",
+    "extended CONNECT (WebSocket) refused by the application with websocket.close, then DATA on that stream",
+    "extended CONNECT (WebSocket) refused with a denial response, then DATA on that stream",
 ]
 
 
@@ -180,6 +194,13 @@ def _odd_traffic(kind: int, c: H2Client, conn: Conn, sid: int, obs: H2FrameObser
         pump()
         conn.feed(_raw(hf.WindowUpdateFrame(0, window_increment=1000)))
         conn.feed(_raw(hf.PriorityFrame(sid, depends_on=0, stream_weight=200)))
+    elif kind in (22, 23):
+        path = b"/reject-close" if kind == 22 else b"/reject-http"
+        conn.feed(_raw_headers(c, sid, [(b":method", b"CONNECT"), (b":protocol", b"websocket"), (b":scheme", b"http"), (b":authority", b"example.com"), (b":path", path),
+                                        (b"sec-websocket-version", b"13")], False))
+        pump()
+        conn.feed(_raw_data(sid, b"\x81\x02hi", False))  # a WebSocket text frame the client sent before it saw the refusal
+        pump()
     else:
         # the client is entitled to keep uploading: neither the stream window nor the connection window is exceeded
         conn.feed(_raw_headers(c, sid, _std(method=b"POST"), False))
@@ -214,7 +235,7 @@ def _send_sibling(c: H2Client, conn: Conn, sib: int, obs: H2FrameObserver) -> st
     witnesses=[{"n": 2, "k0": 7, "k1": 10, "k2": 0, "sib_first": False, "flavour": 0}, {"n": 1, "k0": 14, "k1": 0, "k2": 0, "sib_first": True, "flavour": 1}],
     budget={"quick": 120, "thorough": 900},
     per_path=60,
-    bounds="sequences of 1..2 (thorough 3) odd-but-legal HTTP/2 exchanges from 22 kinds (non-ASCII/NUL path, ordinary CONNECT, DATA/trailers after the response completed, PRIORITY before HEADERS, RST/WINDOW_UPDATE on finished streams, CONTINUATION, padding, empty DATA, unknown frame type, PING burst, SETTINGS change, ...) each on its own stream, next to a normal sibling upload (POST with a body, sent within the flow-control credit the server has granted) before or after them; both worker flavours",
+    bounds="sequences of 1..2 (thorough 3) odd-but-legal HTTP/2 exchanges from 24 kinds (non-ASCII/NUL path, ordinary CONNECT, DATA/trailers after the response completed, PRIORITY before HEADERS, RST/WINDOW_UPDATE on finished streams, CONTINUATION, padding, empty DATA, unknown frame type, PING burst, SETTINGS change, ...) each on its own stream, next to a normal sibling upload (POST with a body, sent within the flow-control credit the server has granted) before or after them; both worker flavours",
     encodes=["hypercorn/protocol/h2.py::H2Protocol.handle", "hypercorn/protocol/h2.py::H2Protocol._handle_events", "hypercorn/protocol/h2.py::H2Protocol._create_stream",
              "hypercorn/protocol/http_stream.py::HTTPStream.handle", "hypercorn/protocol/ws_stream.py::WSStream.handle", "hypercorn/protocol/h2.py::H2Protocol._priority_updated"],
     stubs=["tier B runtime", "frames that h2's client API refuses to emit are serialised with hyperframe/hpack directly", "independent h2 client parses the server's output"],
